@@ -31,6 +31,24 @@ def build_case(rng, tier, kind):
             sts.append(g.insert(name, nrows=rng.randint(2, 6)))
             sts.append(g.update(name))
         dump_every = 1
+    elif kind == "reread":
+        # rows whose length changes (longer, shorter, to and from the empty string) and deletes, then every page
+        # is read again from the data file after a clean restart, and the history goes on
+        g = hist.Gen(rng, 2)
+        sts = [g.create(cols=[("a", "int", 0), ("b", "varchar", 255), ("c", "varchar", 40)])]
+        name = sts[0]["table"]
+        n = rng.randint(6, 20)
+        sts.append({"k": "insert", "table": name, "cols": [],
+                    "rows": [[i, "v%d" % i * rng.randint(0, 6), rng.choice(["", "x", "yy" * rng.randint(1, 8)])] for i in range(n)]})
+        for _ in range(rng.randint(2, 5)):
+            tgt = rng.randrange(n)
+            newb = rng.choice(["", "q", "grown-" + "g" * rng.randint(5, 120), "s"])
+            sts.append({"k": "update", "table": name, "sets": [("b", newb)] + ([("c", "k" * rng.randint(0, 30))] if rng.random() < 0.4 else []),
+                        "where": [[(("col", "", "a"), rng.choice(["=", "=", "<="]), tgt)]]})
+        if rng.random() < 0.5:
+            sts.append({"k": "delete", "table": name, "where": [[(("col", "", "a"), "=", rng.randrange(n))]]})
+        sts.append(g.insert(name, nrows=rng.randint(1, 4)))
+        dump_every = 1
     elif kind == "catalog":
         # many tables: the catalog trees split and their roots move
         g = hist.Gen(rng, 60)
@@ -69,6 +87,8 @@ def build_case(rng, tier, kind):
     # a third of the short histories also shut down cleanly and restart once (flush, reopen): what
     # later statements read then comes from the data file, not from the cache
     reload_at = rng.randrange(2, len(sts)) if kind in ("small", "split") and len(sts) > 3 and rng.random() < 0.34 else None
+    if kind == "reread":
+        reload_at = len(sts) - 1          # after the updates and the delete, before the last insert
     for i, st in enumerate(sts):
         if i == reload_at:
             evs += [("flush",), ("crash",), ("tables", list(seen) + ["sys_schema"]), ("dump",)]
@@ -104,8 +124,8 @@ def corpus():
 
 
 def generate(rng, tier):
-    plan = [("deep", 1), ("small", 24), ("split", 12), ("catalog", 4)] if tier == "quick" else \
-           [("deep", 1), ("small", 150), ("split", 60), ("catalog", 20), ("large", 3)]
+    plan = [("deep", 1), ("small", 24), ("split", 12), ("reread", 6), ("catalog", 4)] if tier == "quick" else \
+           [("deep", 1), ("small", 150), ("split", 60), ("reread", 40), ("catalog", 20), ("large", 3)]
     cases = corpus()
     for kind, n in plan:
         for _ in range(n):
